@@ -180,6 +180,47 @@ def open_templates():
     return t
 
 
+import json
+
+from .common import REPO
+
+
+def table_d_sample(tier, sd, nquick=25):
+    """One-descriptor templates: Table D sequences of versions >= 19 (shaping by the table file only)."""
+    rnd = random.Random(sd * 7 + 8)
+    versions = [33] if tier == 'quick' else [19, 25, 33, 41]
+    out = {}
+    for mv in versions:
+        with open(os.path.join(os.path.join(REPO, 'pybufrkit', 'tables', '0', '0_0', str(mv)), 'TableD.json')) as f:
+            td = json.load(f)
+        with open(os.path.join(os.path.join(REPO, 'pybufrkit', 'tables', '0', '0_0', str(mv)), 'TableB.json')) as f:
+            tb = json.load(f)
+
+        def expand(key, depth=0):
+            ids = []
+            for m in td[key][1]:
+                if m.startswith('3') and m in td and depth < 10:
+                    ids += expand(m, depth + 1)
+                else:
+                    ids.append(m)
+            return ids
+        keys = sorted(td)
+        rnd.shuffle(keys)
+        picked = []
+        for k in keys:
+            flat = expand(k)
+            ndel = sum(1 for d in flat if d.startswith('1') and d.endswith('000'))
+            ok = all((d in tb or not d.startswith('0')) for d in flat) and not any(d.startswith('3') for d in flat)
+            ops = [d for d in flat if d.startswith('2')]
+            if ok and ndel <= 3 and len(flat) <= 60 and all(d[:3] in ('201', '202', '204', '207', '208') for d in ops) \
+                    and not any(d in ('031011', '031012') for d in flat):
+                picked.append([int(k)])
+            if len(picked) >= (nquick if tier == 'quick' else 60):
+                break
+        out[mv] = picked
+    return out
+
+
 def sample(items, k, rnd):
     if k >= len(items):
         return list(items)
@@ -197,5 +238,9 @@ def catalogue(tier, seed=0):
     from . import gen
     n = 12 if tier == 'quick' else 60
     g = gen.generate(seed, n, n, n)
-    return {'plain': p, 'struct': s, 'bitmap': b, 'open': open_templates(),
-            'rnd_plain': g['plain'], 'rnd_struct': g['struct'], 'rnd_bitmap': g['bitmap']}
+    out = {'plain': p, 'struct': s, 'bitmap': b, 'open': open_templates(),
+           'rnd_plain': g['plain'], 'rnd_struct': g['struct'], 'rnd_bitmap': g['bitmap']}
+    # Table D sequences as one-descriptor templates (the sequences real messages are made of)
+    for mv, seqs in table_d_sample(tier, seed, nquick=12).items():
+        out['tabled_%d' % mv] = seqs
+    return out
